@@ -295,6 +295,54 @@ pub fn run(args: &Args) -> ! {
     for (key, v) in total.disc.iter() {
         verdict.discrepancy(None, key, v.clone());
     }
+    // ---- the request as the command line makes it: `rg --crlf P` builds a
+    // CRLF line matcher, `rg -U --crlf P` builds a multi-line matcher without
+    // a line terminator; for a P that cannot match `\n` both must deliver the
+    // same events ---------------------------------------------------------
+    {
+        use grep_regex::RegexMatcherBuilder;
+        // (none of them can match `\r` either: a class that contains `\r` is
+        // narrowed by the CRLF line matcher by documented design)
+        let pats = ["\\B", "m", "m*", "\\Bx", "x\\B", "x\\b", "\\b", "m$", "^x?$", "\\Bm*\\B", "(?:x|\\B)$"];
+        let ins = inputs(Term::Crlf, tier.pick(5, 6));
+        let mut pairs = 0u64;
+        for pat in pats {
+            let mut lb = RegexMatcherBuilder::new();
+            lb.line_terminator(Some(b'\n')).crlf(true);
+            let mut mb = RegexMatcherBuilder::new();
+            mb.multi_line(true).crlf(true).line_terminator(None);
+            let (Ok(lm), Ok(mm)) = (lb.build(pat), mb.build(pat)) else { continue };
+            for invert in [false, true] {
+                for ctx in [0usize, 1] {
+                    let base = Cfg { term: Term::Crlf, invert, after: ctx, before: ctx, passthru: false, line_number: true, stop_on_nonmatch: false, multi_line: false };
+                    let mut with = base;
+                    with.multi_line = true;
+                    let mut s_line = build_searcher(&base, Strat::Slice);
+                    let mut s_ml = build_searcher(&with, Strat::Slice);
+                    if s_ml.multi_line_with_matcher(&mm) {
+                        continue; // P can match a line terminator: a real multi-line search
+                    }
+                    for input in ins.iter() {
+                        let mut r1 = Rec::new();
+                        let mut r2 = Rec::new();
+                        let e1 = s_line.search_slice(&lm, input, &mut r1);
+                        let e2 = s_ml.search_slice(&mm, input, &mut r2);
+                        pairs += 1;
+                        total.runs += 2;
+                        if e1.is_err() || e2.is_err() || r1.events != r2.events {
+                            verdict.discrepancy(
+                                None,
+                                &format!("command-line multi-line request changes results | {} | {} | {}", base.show(), pat, esc(input)),
+                                json!({"kind":"cli-multi-line-request","pattern":pat,"cfg":cfg_json(&base),"input":esc(input),
+                                       "without_request":show(&r1.events),"with_request":show(&r2.events)}),
+                            );
+                        }
+                    }
+                }
+            }
+        }
+        total.ml_request_pairs += pairs;
+    }
     if total.grew == 0 || total.rolled_with_context == 0 || total.heap_errors == 0 || total.heap_ok == 0 || total.mmap_runs == 0 || total.interrupted_runs == 0 {
         machinery_error("C02: a mandatory coverage counter is zero");
     }
@@ -313,7 +361,7 @@ pub fn run(args: &Args) -> ! {
     ev.set(
         "rule",
         format!(
-            "reference = the Sink event stream (begin, matched/context with bytes, line number, absolute offset, context_break, finish byte count) of search_slice. Compared against: search_reader with roll-buffer capacity in {:?} (hook) x EVERY composition of the input length as the sequence of read() return sizes (inputs up to length {}; five fixed fragmentations for the long family), heap limits 1..len+2 (error allowed only while the limit is below len+1, delivered events must then be a prefix), Interrupted injected at every read index on the multi-line reader path, search_path with MmapChoice::auto and never, search_file. Inputs: every byte string over {{m,x,terminator}} (+\\r under CRLF) up to length {:?} plus four long inputs of 30-62 bytes; configurations: (A,B) in 0..2 squared, passthru, invert, line numbers, stop_on_nonmatch, LF/CRLF/NUL, multi_line requested (with matchers that cannot match the terminator: line strategy; with one that can: true multi-line strategy); matcher line paths fast/candidate/slow/grep-regex, and under CRLF a grep-regex matcher built as `rg -U --crlf` builds it for a pattern that can match \\r but not \\n; every search with the multi-line request on a matcher that cannot match the terminator is also compared with the same search without the request. Binary detection off. distinct_nontrivial = distinct (configuration, matcher, input) triples whose reference delivers at least one line.",
+            "reference = the Sink event stream (begin, matched/context with bytes, line number, absolute offset, context_break, finish byte count) of search_slice. Compared against: search_reader with roll-buffer capacity in {:?} (hook) x EVERY composition of the input length as the sequence of read() return sizes (inputs up to length {}; five fixed fragmentations for the long family), heap limits 1..len+2 (error allowed only while the limit is below len+1, delivered events must then be a prefix), Interrupted injected at every read index on the multi-line reader path, search_path with MmapChoice::auto and never, search_file. Inputs: every byte string over {{m,x,terminator}} (+\\r under CRLF) up to length {:?} plus four long inputs of 30-62 bytes; configurations: (A,B) in 0..2 squared, passthru, invert, line numbers, stop_on_nonmatch, LF/CRLF/NUL, multi_line requested (with matchers that cannot match the terminator: line strategy; with one that can: true multi-line strategy); matcher line paths fast/candidate/slow/grep-regex, and under CRLF a grep-regex matcher built as `rg -U --crlf` builds it for a pattern that can match \\r but not \\n; every search with the multi-line request on a matcher that cannot match the terminator is also compared with the same search without the request; and under CRLF, for eleven patterns that can match neither \\n nor \\r (\\B, \\b, m*, m$, ...), the search as `rg --crlf P` builds it against the search as `rg -U --crlf P` builds it, on every input up to the bound. Binary detection off. distinct_nontrivial = distinct (configuration, matcher, input) triples whose reference delivers at least one line.",
             caps, tier.pick(5, 7), lens
         ),
     );
